@@ -13,7 +13,7 @@ from vlib import gen, pumlsem as ps
 from vlib.runner import REPO, HarnessError
 
 JOB_CAP = 400          # jobs handed to the learner per case
-ENUM_CAP = 4000        # complete-set enumeration cap (above: case skipped)
+ENUM_CAP = 1500        # complete-set enumeration cap (above: case skipped)
 
 _corpus_cache = {}
 
@@ -89,10 +89,29 @@ def explicit(case, m):
 # --------------------------------------------------------------------------
 # known findings: predicates on the *input* (DESIGN.md section 6)
 # --------------------------------------------------------------------------
-def known_family(case, m):
-    """Name of the listed open finding whose input predicate this case
+_open_cache = {}
+
+
+def _open_findings(prop):
+    if prop not in _open_cache:
+        from vlib.runner import load_known
+        _open_cache[prop] = {e["id"] for e in load_known(prop)
+                             if e.get("status") == "open"}
+    return _open_cache[prop]
+
+
+def known_family(case, m, prop=None):
+    """Id of the listed open finding whose input predicate this case
     satisfies, or None.  Computed from the definition and the drawn job set
-    only - never from what the tool produced."""
+    only - never from what the tool produced.  With `prop`, only findings
+    that known_findings.json lists for that property count."""
+    fam = _family(case, m)
+    if fam and prop is not None and fam not in _open_findings(prop):
+        return None
+    return fam
+
+
+def _family(case, m):
     if os.path.basename(case.get("corpus", "")) == \
             "kill_with_merge_on_parent.puml":
         return "PV-F-D-kill-with-merge-on-parent"
@@ -184,6 +203,8 @@ def _valid(j, in_loop=False, top=True):
     if t == "seq":
         if not j[1]:
             return False
+        if not top and j[1][0][0] != "ev":
+            return False      # fragment F: a sequence begins with an event
         for i, it in enumerate(j[1]):
             if it[0] in ("break", "kill") and i != len(j[1]) - 1:
                 return False
